@@ -163,6 +163,8 @@ def wf(eng, o):
     parts = [FO.fold(eng, ver, "nozero"), FO.fold(eng, ver, "scanon" if spin else "bcanon")]
     if eng.db.is_subclass(cls, "QUBOMatrix") or eng.db.is_subclass(cls, "QUSOMatrix"):
         parts.append(FO.fold(eng, ver, "deg2"))
+    if not eng.db.is_subclass(cls, "BO"):
+        parts.append(FO.fold(eng, ver, "valid_mat"))
     return SV(z3.And(*parts), "bool")
 
 
@@ -247,3 +249,32 @@ def mono_as(eng, o, k):
     e = eng.as_key(k)
     eng.facts.key(e)
     return SV(T.smono(e) if is_spin_class(eng, cls) else T.bmono(e), "real")
+
+
+@spec
+def distinct(eng, a, b):
+    """the two arguments are different objects (no aliasing)"""
+    return a is not b
+
+
+@spec
+def is_empty(eng, d):
+    ver = eng.store_of(d)
+    return SV(ver.dom == z3.K(ver.ksort, z3.BoolVal(False)), "bool")
+
+
+@spec
+def sameclass(eng, a, b):
+    from .builtins import class_name_of
+    return class_name_of(eng, a) == class_name_of(eng, b)
+
+
+@spec
+def forall_key(eng, f):
+    """forall q: Key. f(q)   (a genuinely quantified formula; used sparingly)"""
+    eng.nfresh += 1
+    q = z3.Const("q!%d" % eng.nfresh, T.Key)
+    body = eng.call(f, [SV(q, "key")], {})
+    t = eng.tobool(body)
+    t = z3.BoolVal(t) if isinstance(t, bool) else t
+    return SV(z3.ForAll([q], t), "bool")
